@@ -148,7 +148,7 @@ def strategy(tier: str) -> Any:
 def _sched_strategy(tier: str) -> Any:
     return sc.sched_case(tier=tier, modes=("ctl", "ctl", "free", "ctl-ex"), min_sites=2, max_sites=9, flags=True,
                          seq_rate=0.25, prio=(-2, 4), faults=2, sel_rate=0.2, max_mc=4, profile_rate=0.25,
-                         n_setup=2, n_debug=2, setup_call_rate=0.2)
+                         n_setup=2, n_debug=2, setup_call_rate=0.2, reuse=True)
 
 
 def run_shard(H: Harness) -> None:
